@@ -285,6 +285,29 @@ def rule_state(ctx, py):
     ctx.floor(R, 30)
 
 
+def rule_one_system(ctx, py, R="C04.ONE-SYSTEM"):
+    """a function that is told the units system to work in (a parameter named units_system) converts every quantity whose number
+    it extracts to *that* system: mixing it with another system (the object's own, the default) makes the result depend on the
+    units the model happens to be written in"""
+    n = 0
+    for f in py.all_funcs():
+        if "units_system" not in pyfe.params(f) or getattr(f, "_role", "") == "setter" or f.name == "__init__":
+            continue
+        for v in value_loads(f):
+            cv = is_convert_value(v)
+            if cv is None:
+                continue
+            u = pyfe.src(cv[1])
+            if u.startswith("Units(") or u.startswith("self.units") and False:
+                continue
+            n += 1
+            okk = u in ("units_system",) or u.startswith("Units(units_system") or u.startswith("Units(sys=units_system")
+            ctx.check(okk, R, v, f._qual, pyfe.src(v)[:80], "converted to the requested units system",
+                      "the number is taken after a conversion to `%s`, while the function was asked to work in `units_system`: the "
+                      "numbers it combines are in different units" % u)
+    ctx.floor(R, 10)
+
+
 def run(ctx):
     py, tu = ctx.py, ctx.cx
     rule_boundary(ctx, py, tu)
@@ -293,6 +316,7 @@ def run(ctx):
     rule_inherit(ctx, py)
     rule_owner(ctx, py)
     rule_state(ctx, py)
+    rule_one_system(ctx, ctx.py)
     from . import c05, c12
     c05.rule_ctor_label(ctx, ctx.py, "C04.CTOR")
     c12.rule_unitstr(ctx, ctx.py, "C04.SERIAL")
